@@ -138,3 +138,344 @@ Proof.
     apply andb_true_iff in H. destruct H as [_ H]. eexists; eexists; split; [reflexivity|].
     unfold result_matches. destruct (tally _ _ _), (v_maj v); try discriminate; auto. apply Z.eqb_eq; auto.
 Qed.
+
+(* ---------------------------------------------------------------- association list facts *)
+
+Lemma aget_app {A} k (m1 m2 : list (Z * A)) :
+  aget k (m1 ++ m2) = match aget k m1 with Some v => Some v | None => aget k m2 end.
+Proof. induction m1 as [|[k' v] m IH]; simpl; auto. destruct (k =? k'); auto. Qed.
+
+Lemma aget_adel_same {A} k (m : list (Z * A)) : aget k (adel k m) = None.
+Proof.
+  unfold adel. induction m as [|[k' v] m IH]; simpl; auto.
+  destruct (k =? k') eqn:E; simpl; auto. rewrite E. auto.
+Qed.
+
+Lemma aget_adel_other {A} k k' (m : list (Z * A)) : k <> k' -> aget k (adel k' m) = aget k m.
+Proof.
+  intros N. unfold adel. induction m as [|[k2 v] m IH]; simpl; auto.
+  destruct (k' =? k2) eqn:E; simpl.
+  - apply Z.eqb_eq in E; subst. destruct (k =? k2) eqn:E2; auto. apply Z.eqb_eq in E2. contradiction.
+  - destruct (k =? k2); auto.
+Qed.
+
+Lemma aget_aset_same {A} k (v : A) m : aget k (aset k v m) = Some v.
+Proof. unfold aset. rewrite aget_app, aget_adel_same. simpl. rewrite Z.eqb_refl. reflexivity. Qed.
+
+Lemma aget_aset_other {A} k k' (v : A) m : k <> k' -> aget k (aset k' v m) = aget k m.
+Proof.
+  intros N. unfold aset. rewrite aget_app, aget_adel_other; auto.
+  destruct (aget k m); auto. simpl. destruct (k =? k') eqn:E; auto. apply Z.eqb_eq in E. contradiction.
+Qed.
+
+Lemma ahas_aset_mono {A} k k' (v : A) m : ahas k m = true -> ahas k (aset k' v m) = true.
+Proof.
+  unfold ahas. destruct (Z.eq_dec k k') as [E|N].
+  - subst. rewrite aget_aset_same. auto.
+  - rewrite aget_aset_other; auto.
+Qed.
+
+Lemma ahas_aset_same {A} k (v : A) m : ahas k (aset k v m) = true.
+Proof. unfold ahas. rewrite aget_aset_same. reflexivity. Qed.
+
+Lemma ahas_In {A} k (m : list (Z * A)) : ahas k m = true <-> In k (map fst m).
+Proof.
+  unfold ahas. split.
+  - destruct (aget k m) eqn:E; [|discriminate]. intros _. apply aget_In in E. apply in_map_iff. exists (k, a); auto.
+  - intros H. destruct (aget k m) eqn:E; auto. apply aget_None_notin in E. contradiction.
+Qed.
+
+(* ---------------------------------------------------------------- the invariant of one record *)
+
+Section Sound.
+Variable e : env.
+Variable Psf : signfact -> Prop.
+Variable Pvp : vproof -> Prop.
+
+Definition suf_at (sp : spoint) : option suffrage := aget (safe_prev (sp_h sp)) (en_sufs e).
+
+Definition voted_ok (rex : list (Z * list expel)) (sp : spoint) (n : Z) (sf : signfact) : Prop :=
+  sf_node sf = n /\ f_sp (sf_fact sf) = sp /\ Psf sf /\
+  exists s, suf_at sp = Some s /\ suf_exists_pub n (sf_pub sf) s = true /\
+            (forall ex, aget n rex = Some ex -> forallb (fun x => expel_valid (sp_h sp) x s) ex = true).
+
+Definition RInv (r : rec) : Prop :=
+  match r_sp r with
+  | None => True
+  | Some sp =>
+      NoDup (map fst (r_voted r)) /\
+      (forall n sf, In (n, sf) (r_voted r) -> voted_ok (r_ex r) sp n sf) /\
+      (forall n sf, In (n, sf) (r_ballots r) -> sf_node sf = n /\ f_sp (sf_fact sf) = sp /\ Psf sf) /\
+      (forall n v, In (n, v) (r_vps r) -> Pvp v /\ vp_wellformed v = true) /\
+      (forall n ex, In (n, ex) (r_ex r) -> NoDup (map e_node ex)) /\
+      (forall n, ahas n (r_ex r) = true -> ahas n (r_vps r) = true)
+  end.
+
+(* what a ballot handed to Vote must satisfy (consequences of Ballot.IsValid(networkID)) *)
+Definition ballot_ok (bl : ballot) : Prop :=
+  Psf (b_sf bl) /\ NoDup (map e_node (b_ex bl)) /\ (b_ex bl <> [] -> b_vp bl <> None) /\
+  (forall v, b_vp bl = Some v -> Pvp v /\ vp_wellformed v = true).
+
+Lemma rinv_zero : RInv rec_zero.
+Proof. exact I. Qed.
+
+Lemma rinv_init p isc r : RInv (rec_init p isc r).
+Proof.
+  unfold RInv, rec_init; simpl. repeat split; try (intros; contradiction); try constructor.
+  intros n H; discriminate.
+Qed.
+
+Lemma rinv_pooled r : RInv (rec_pooled r).
+Proof. exact I. Qed.
+
+Lemma recorded_props n bl r :
+  let r2 := recorded n bl r in
+  r_sp r2 = r_sp r /\ r_isc r2 = r_isc r /\ r_voted r2 = r_voted r /\ r_ballots r2 = r_ballots r /\
+  r_vps r2 = (match b_vp bl with Some v => aset n v (r_vps r) | None => r_vps r end) /\
+  r_ex r2 = (match b_ex bl with [] => r_ex r | ex => aset n ex (r_ex r) end).
+Proof. unfold recorded. destruct (b_vp bl), (b_ex bl); simpl; repeat split; auto. Qed.
+
+Lemma rinv_vote suf last bl r r' v w sp :
+  RInv r -> r_sp r = Some sp -> f_sp (sf_fact (b_sf bl)) = sp -> ballot_ok bl ->
+  (forall s, suf = Some s -> suf_at sp = Some s) ->
+  rec_vote suf last bl r = (r', v, w) -> RInv r'.
+Proof.
+  intros RI S FS [BP [BN [BX BV]]] SUF. unfold rec_vote. rewrite S.
+  destruct (negb (before last sp (r_isc r))); [intros H; inversion H; subst; auto|].
+  destruct (is_some (r_vp r)); [intros H; inversion H; subst; auto|].
+  set (n := sf_node (b_sf bl)).
+  destruct (is_voted n r) eqn:IV; [intros H; inversion H; subst; auto|].
+  unfold is_voted in IV. apply orb_false_iff in IV. destruct IV as [IV NV].
+  apply orb_false_iff in IV. destruct IV as [NVP NB].
+  unfold RInv in RI. rewrite S in RI. destruct RI as [R1 [R2 [R3 [R4 [R5 R6]]]]].
+  assert (NEX : aget n (r_ex r) = None).
+  { destruct (aget n (r_ex r)) eqn:E; auto. assert (X : ahas n (r_ex r) = true) by (unfold ahas; rewrite E; auto).
+    apply R6 in X. congruence. }
+  destruct (recorded_props n bl r) as [P1 [P2 [P3 [P4 [P5 P6]]]]].
+  set (r2 := recorded n bl r) in *.
+  (* facts about the recorded maps *)
+  assert (EXO : forall n', n' <> n -> aget n' (r_ex r2) = aget n' (r_ex r)).
+  { intros n' N. rewrite P6. destruct (b_ex bl); auto. apply aget_aset_other; auto. }
+  assert (EXN : forall ex, aget n (r_ex r2) = Some ex -> ex = b_ex bl).
+  { intros ex. rewrite P6. destruct (b_ex bl) eqn:BE; [rewrite NEX; discriminate|].
+    rewrite aget_aset_same. intros H; inversion H; auto. }
+  assert (EXI : forall n' ex, In (n', ex) (r_ex r2) -> NoDup (map e_node ex)).
+  { intros n' ex. rewrite P6. destruct (b_ex bl) eqn:BE; [apply R5|].
+    intros H. apply In_aset in H. destruct H as [[H _]|H]; [eapply R5; eauto|]. inversion H; subst. auto. }
+  assert (VPI : forall n' v', In (n', v') (r_vps r2) -> Pvp v' /\ vp_wellformed v' = true).
+  { intros n' v'. rewrite P5. destruct (b_vp bl) eqn:BVP; [|apply R4].
+    intros H. apply In_aset in H. destruct H as [[H _]|H]; [eapply R4; eauto|]. inversion H; subst. apply BV; auto. }
+  assert (R6' : forall n', ahas n' (r_ex r2) = true -> ahas n' (r_vps r2) = true).
+  { intros n'. rewrite P5, P6. destruct (b_ex bl) eqn:BE.
+    - intros H. apply R6 in H. destruct (b_vp bl); auto. apply ahas_aset_mono; auto.
+    - assert (BVN : b_vp bl <> None) by (apply BX; discriminate).
+      destruct (b_vp bl) as [v0|]; [|contradiction].
+      destruct (Z.eq_dec n' n) as [E|N].
+      + subst. intros _. apply ahas_aset_same.
+      + unfold ahas at 1. rewrite aget_aset_other; auto. intros H. apply ahas_aset_mono. apply R6. exact H. }
+  assert (OLDV : forall n' sf, In (n', sf) (r_voted r) -> n' <> n).
+  { intros n' sf H E. subst. apply ahas_false_notin in NV. apply NV. apply in_map_iff. exists (n, sf); auto. }
+  destruct suf as [s|].
+  - destruct (negb (ballot_valid_suf (b_sf bl) (b_ex bl) s)) eqn:BVS; [intros H; inversion H; subst; unfold RInv; rewrite S; auto 10|].
+    apply negb_false_iff in BVS. unfold ballot_valid_suf in BVS. apply andb_true_iff in BVS. destruct BVS as [MEM EXV].
+    intros H; inversion H; subst r' v w. unfold RInv. cbn [set_voted r_sp r_voted r_ballots r_vps r_ex].
+    rewrite P1, S, P3, P4. split; [apply NoDup_keys_aset; auto|]. split; [|split; [auto|split; [auto|split; auto]]].
+    intros n' sf H'. apply In_aset in H'. destruct H' as [[H' _]|H'].
+    + assert (N := OLDV _ _ H'). destruct (R2 _ _ H') as [A [B [C [s' [D [E F]]]]]].
+      repeat split; auto. exists s'. repeat split; auto. intros ex. rewrite EXO; auto.
+    + inversion H'; subst n' sf. repeat split; auto. exists s. split; [apply SUF; auto|]. split; [exact MEM|].
+      intros ex X. apply EXN in X. subst ex. rewrite FS in EXV. exact EXV.
+  - intros H; inversion H; subst r' v w. unfold RInv. cbn [set_ballots r_sp r_voted r_ballots r_vps r_ex].
+    rewrite P1, S, P3, P4. split; [auto|]. split; [|split; [|split; [auto|split; auto]]].
+    + intros n' sf H'. assert (N := OLDV _ _ H'). destruct (R2 _ _ H') as [A [B [C [s' [D [E F]]]]]].
+      repeat split; auto. exists s'. repeat split; auto. intros ex. rewrite EXO; auto.
+    + intros n' sf H'. apply In_aset in H'. destruct H' as [[H' _]|H']; [eapply R3; eauto|].
+      inversion H'; subst. auto.
+Qed.
+
+(* ---------------------------------------------------------------- countFromBallots *)
+
+Lemma fold_aset_props (ok : list (Z * signfact)) : forall m,
+  NoDup (map fst m) ->
+  let m' := fold_left (fun m kv => aset (sf_node (snd kv)) (snd kv) m) ok m in
+  NoDup (map fst m') /\
+  (forall n sf, In (n, sf) m' -> In (n, sf) m \/ exists kv, In kv ok /\ n = sf_node (snd kv) /\ sf = snd kv).
+Proof.
+  induction ok as [|kv ok IH]; intros m ND; cbv zeta; simpl.
+  - split; auto.
+  - destruct (IH (aset (sf_node (snd kv)) (snd kv) m) (NoDup_keys_aset _ _ _ ND)) as [A B]. split; auto.
+    intros n sf H. apply B in H. destruct H as [H|[kv' [H1 H2]]].
+    + apply In_aset in H. destruct H as [[H _]|H]; auto. right. exists kv. inversion H; subst. auto.
+    + right. exists kv'. tauto.
+Qed.
+
+Lemma rinv_cfb s r sp :
+  RInv r -> r_sp r = Some sp -> suf_at sp = Some s -> RInv (count_from_ballots s r).
+Proof.
+  intros RI S SA. unfold RInv in *. rewrite S in RI. destruct RI as [R1 [R2 [R3 [R4 [R5 R6]]]]].
+  unfold count_from_ballots. cbn [set_ballots set_voted r_sp r_voted r_ballots r_vps r_ex]. rewrite S.
+  match goal with |- context [fold_left ?f ?ok (r_voted r)] => destruct (fold_aset_props ok (r_voted r) R1) as [A B] end.
+  cbv zeta in A, B. split; [exact A|]. split; [|split; [intros n sf H; contradiction|auto]].
+  intros n sf H. apply B in H. destruct H as [H|[kv [H1 [H2 H3]]]]; [apply R2; auto|].
+  apply filter_In in H1. destruct H1 as [H1 V]. destruct kv as [n0 sf0]. simpl in *. subst n sf.
+  destruct (R3 _ _ H1) as [N [F P]].
+  unfold ballot_valid_suf in V. apply andb_true_iff in V. destruct V as [V1 V2].
+  repeat split; auto. exists s. split; auto. split; auto.
+  intros ex X. rewrite X in V2. rewrite F in V2. exact V2.
+Qed.
+
+(* ---------------------------------------------------------------- countFromVoted: what it emits is sound *)
+
+Definition own_sound (sp : spoint) (s : suffrage) (v : vproof) : Prop :=
+  v_sp v = sp /\ vp_wellformed v = true /\ vp_valid_suf v s = true /\ (forall sf, In sf (v_sfs v) -> Psf sf).
+
+Lemma wf_intro v :
+  v_sfs v <> [] -> NoDup (map sf_node (v_sfs v)) ->
+  (forall sf, In sf (v_sfs v) -> f_sp (sf_fact sf) = v_sp v) ->
+  match v_maj v with None => True | Some m => f_sp m = v_sp v /\ In (f_id m) (sf_ids (v_sfs v)) end ->
+  match v_kind v with
+  | VPlain => v_ex v = []
+  | VExpel => v_ex v <> [] /\ NoDup (map e_node (v_ex v)) /\
+              (forall sf, In sf (v_sfs v) -> ~ In (sf_node sf) (map e_node (v_ex v))) /\
+              match v_maj v with Some m => expels_of_fact m (v_ex v) = true | None => True end
+  | VStuck => False
+  end ->
+  vp_wellformed v = true.
+Proof.
+  intros H1 H2 H3 H4 H5. unfold vp_wellformed. rewrite !andb_true_iff. repeat split.
+  - destruct (v_sfs v); auto.
+  - apply znodup_NoDup; auto.
+  - apply forallb_forall. intros sf X. apply sp_eqb_eq. auto.
+  - destruct (v_maj v) as [m|]; auto. destruct H4 as [A B]. apply andb_true_iff. split.
+    + apply sp_eqb_eq; auto.
+    + apply zmem_In; auto.
+  - destruct (v_kind v).
+    + rewrite H5. reflexivity.
+    + destruct H5 as [A [B [C D]]]. rewrite !andb_true_iff. repeat split.
+      * destruct (v_ex v); auto.
+      * apply znodup_NoDup; auto.
+      * apply forallb_forall. intros sf X. apply negb_true_iff.
+        destruct (zmem (sf_node sf) (map e_node (v_ex v))) eqn:E; auto. apply zmem_In in E. exfalso. eapply C; eauto.
+      * simpl. destruct (v_maj v) as [m|]; auto.
+    + contradiction.
+Qed.
+
+Lemma bvs_intro v rs th :
+  v_kind v <> VStuck ->
+  (forall sf, In sf (v_sfs v) -> suf_exists_pub (sf_node sf) (sf_pub sf) rs = true) ->
+  result_matches (tally (zlen rs) (thr th (zlen rs)) (sf_ids (v_sfs v))) (v_maj v) ->
+  base_valid_suf v rs th = true.
+Proof.
+  intros K M T. unfold base_valid_suf. apply andb_true_iff. split.
+  - apply forallb_forall. auto.
+  - destruct (v_kind v); try contradiction; simpl;
+      unfold result_matches in T; destruct (tally _ _ _), (v_maj v); try contradiction; auto; apply Z.eqb_eq; auto.
+Qed.
+
+Lemma voted_facts r sp s :
+  RInv r -> r_sp r = Some sp -> suf_at sp = Some s ->
+  let sfs := map snd (r_voted r) in
+  NoDup (map sf_node sfs) /\
+  (forall sf, In sf sfs -> f_sp (sf_fact sf) = sp /\ Psf sf /\ suf_exists_pub (sf_node sf) (sf_pub sf) s = true /\
+                           In (sf_node sf, sf) (r_voted r)).
+Proof.
+  intros RI S SA. unfold RInv in RI. rewrite S in RI. destruct RI as [R1 [R2 _]]. cbv zeta.
+  assert (E : map sf_node (map snd (r_voted r)) = map fst (r_voted r)).
+  { rewrite map_map. apply map_ext_in. intros [n sf] H. simpl. destruct (R2 _ _ H) as [A _]. auto. }
+  split; [rewrite E; auto|].
+  intros sf H. apply in_map_iff in H. destruct H as [[n sf'] [X H]]. simpl in X; subst sf'.
+  destruct (R2 _ _ H) as [A [B [C [s' [D [F _]]]]]]. rewrite SA in D. inversion D; subst s'.
+  subst n. repeat split; auto.
+Qed.
+
+Lemma maj_fact sfs id sp :
+  (forall sf, In sf sfs -> f_sp (sf_fact sf) = sp) -> In id (sf_ids sfs) ->
+  exists m, find_fact id sfs = Some m /\ f_id m = id /\ f_sp m = sp.
+Proof.
+  intros H X. destruct (find_fact_in id sfs X) as [m [sf [A [B [C D]]]]]. exists m. repeat split; auto.
+  subst m. auto.
+Qed.
+
+Lemma cfv_sound local th10 s el px sp r r' v :
+  RInv r -> r_sp r = Some sp -> suf_at sp = Some s ->
+  count_from_voted local th10 s el px sp r = (r', Some v) -> own_sound sp s v.
+Proof.
+  intros RI S SA. destruct (voted_facts r sp s RI S SA) as [ND VF]. cbv zeta in *.
+  unfold count_from_voted. destruct (r_voted r) as [|x0 l0] eqn:VOT; [discriminate|]. rewrite <- VOT in *.
+  set (sfs := map snd (r_voted r)) in *.
+  assert (NE : sfs <> []). { unfold sfs. rewrite VOT. discriminate. }
+  destruct (match px with Some n => expel_candidate local s th10 r n | None => None end) as [[[wsfs maj] ex]|] eqn:CAND.
+  - (* expel voteproof *)
+    intros H; inversion H; subst r' v. clear H.
+    destruct px as [n|]; [|discriminate]. unfold expel_candidate in CAND.
+    destruct (aget n (r_voted r)) as [sfn|] eqn:GV; [|discriminate].
+    destruct (aget n (r_ex r)) as [ex0|] eqn:GE; [|discriminate].
+    destruct ex0 as [|e0 ex0'] eqn:EX0; [discriminate|]. rewrite <- EX0 in *.
+    destruct (zmem local (map e_node ex0)); [discriminate|].
+    fold sfs in CAND.
+    set (w := filter (fun sf => negb (zmem (sf_node sf) (map e_node ex0))) sfs) in *.
+    destruct (suffrage_with_expels s th10 ex0) as [rs|] eqn:SWE; [|discriminate].
+    destruct (zlen w <? thr 1000 (zlen rs)) eqn:LEN; [discriminate|].
+    assert (EXNE : ex0 <> []) by (rewrite EX0; discriminate).
+    destruct (swe_some _ _ _ _ SWE) as [[X _]|[_ [RS RSNE]]]; [contradiction|].
+    assert (WIN : forall sf, In sf w -> In sf sfs /\ ~ In (sf_node sf) (map e_node ex0)).
+    { intros sf X. apply filter_In in X. destruct X as [X Y]. split; auto.
+      apply negb_true_iff in Y. intros Z. apply zmem_In in Z. congruence. }
+    assert (WNE : w <> []).
+    { apply Z.ltb_ge in LEN. rewrite thr_max in LEN by apply zlen_nonneg.
+      destruct rs; [contradiction|]. destruct w; [|discriminate]. unfold zlen in LEN. simpl in LEN. lia. }
+    assert (WND : NoDup (map sf_node w)) by (apply NoDup_map_filter; auto).
+    assert (WSP : forall sf, In sf w -> f_sp (sf_fact sf) = sp) by (intros sf X; apply WIN in X; apply VF; tauto).
+    assert (EXV : forallb (fun x => expel_valid (sp_h sp) x s) ex0 = true).
+    { apply aget_In in GV. unfold RInv in RI. rewrite S in RI. destruct RI as [_ [R2 _]].
+      destruct (R2 _ _ GV) as [_ [_ [_ [s' [D [_ F]]]]]]. rewrite SA in D. inversion D; subst s'. apply F; auto. }
+    assert (EXND : NoDup (map e_node ex0)).
+    { apply aget_In in GE. unfold RInv in RI. rewrite S in RI. destruct RI as [_ [_ [_ [_ [R5 _]]]]]. eapply R5; eauto. }
+    assert (WMEM : forall sf, In sf w -> suf_exists_pub (sf_node sf) (sf_pub sf) rs = true).
+    { intros sf X. destruct (WIN _ X) as [A B]. rewrite RS. apply suf_exists_pub_keep.
+      - apply VF; auto.
+      - destruct (zmem (sf_node sf) (map e_node ex0)) eqn:Z; auto. apply zmem_In in Z. contradiction. }
+    assert (KIND : forall m, v_kind (new_vp sp w m th10 ex0) = VExpel).
+    { intros m. unfold new_vp; simpl. rewrite EX0. reflexivity. }
+    assert (VAL : forall m, result_matches (tally (zlen rs) (thr 1000 (zlen rs)) (sf_ids w)) m ->
+                            vp_valid_suf (new_vp sp w m th10 ex0) s = true).
+    { intros m RM. unfold vp_valid_suf. cbn [new_vp v_ex v_sp v_th v_sfs].
+      rewrite EX0. rewrite <- EX0. rewrite EXV, SWE. cbn [andb].
+      replace (vkind_eqb (v_kind (new_vp sp w m th10 ex0)) VStuck) with false by (rewrite KIND; reflexivity).
+      cbn [andb]. apply bvs_intro; auto. rewrite KIND. discriminate. }
+    destruct (tally (zlen rs) (thr 1000 (zlen rs)) (sf_ids w)) as [| |id] eqn:TAL; [discriminate| |].
+    + inversion CAND; subst wsfs maj ex. clear CAND.
+      unfold own_sound. split; [reflexivity|]. split; [|split].
+      * apply wf_intro; cbn [new_vp v_sfs v_sp v_maj v_ex]; auto.
+        rewrite KIND. repeat split; auto. intros sf X. apply WIN; auto.
+      * apply VAL. exact I.
+      * cbn [new_vp v_sfs]. intros sf X. apply WIN in X. apply VF; tauto.
+    + assert (IDIN := tally_maj_in _ _ _ _ TAL).
+      destruct (maj_fact w id sp WSP IDIN) as [m [FM [MI MS]]]. rewrite FM in CAND.
+      destruct (expels_of_fact m ex0) eqn:EOF; [|discriminate].
+      inversion CAND; subst wsfs maj ex. clear CAND.
+      unfold own_sound. split; [reflexivity|]. split; [|split].
+      * apply wf_intro; cbn [new_vp v_sfs v_sp v_maj v_ex]; auto.
+        -- split; auto. rewrite MI. auto.
+        -- rewrite KIND. repeat split; auto. intros sf X. apply WIN; auto.
+      * apply VAL. exact MI.
+      * cbn [new_vp v_sfs]. intros sf X. apply WIN in X. apply VF; tauto.
+  - (* plain voteproof *)
+    assert (SSP : forall sf, In sf sfs -> f_sp (sf_fact sf) = sp) by (intros sf X; apply VF; auto).
+    assert (SMEM : forall sf, In sf sfs -> suf_exists_pub (sf_node sf) (sf_pub sf) s = true) by (intros sf X; apply VF; auto).
+    assert (PLAIN : forall m, result_matches (tally (zlen s) (thr th10 (zlen s)) (sf_ids sfs)) m ->
+                              match m with None => True | Some f => f_sp f = sp /\ In (f_id f) (sf_ids sfs) end ->
+                              own_sound sp s (new_vp sp sfs m th10 [])).
+    { intros m RM MM. unfold own_sound. split; [reflexivity|]. split; [|split].
+      - apply wf_intro; cbn [new_vp v_sfs v_sp v_maj v_ex v_kind]; auto.
+      - unfold vp_valid_suf. cbn [new_vp v_ex v_kind v_th]. cbn [vkind_eqb andb].
+        apply bvs_intro; cbn [new_vp v_kind v_sfs v_maj]; auto. discriminate.
+      - cbn [new_vp v_sfs]. intros sf X. apply VF; auto. }
+    fold sfs. destruct (tally (zlen s) (thr th10 (zlen s)) (sf_ids sfs)) as [| |id] eqn:TAL.
+    + intros H; inversion H.
+    + destruct (_ && _ && _); intros H; inversion H; subst; apply PLAIN; exact I.
+    + intros H; inversion H; subst. assert (IDIN := tally_maj_in _ _ _ _ TAL).
+      destruct (maj_fact sfs id sp SSP IDIN) as [m [FM [MI MS]]]. rewrite FM.
+      apply PLAIN; [exact MI|]. split; auto. rewrite MI; auto.
+Qed.
+End Sound.
